@@ -35,7 +35,7 @@ func rootRequest(method string, subset bool, ranges bool) M {
 	}
 	chose := L{"a", "b", "c"}
 	if subset {
-		chose = L{"a", "b"}
+		chose = L{"c", "a"} // not the alphabetically smallest ids and not in sorted order
 	}
 	w := map[string]float64{"c1": 1, "c2": 2, "c3": 3}
 	return M{"preferenceFunction": method, "knownAlternatives": ka, "choseToMake": chose, "criteria": crits,
